@@ -1,8 +1,10 @@
 //! lrv-codec: monitors for the lorawan-encoding crate (C01, C02, C03, C19).
 mod c01;
 mod c02;
+mod c03;
+mod c19;
 mod common;
 
 fn main() {
-    lrv_core::runner::main(&[&c01::C01, &c02::C02]);
+    lrv_core::runner::main(&[&c01::C01, &c02::C02, &c03::C03, &c19::C19]);
 }
